@@ -83,7 +83,13 @@ inline std::string check_ledger(World const& w,
             StepRec const& last = *t.steps.back();
             ++st->tracks;
             st->steps += long(t.steps.size());
-            if (first.step_count != 1)
+            // (a track that cannot be initialised - started outside or on a
+            // surface - is killed by the tracking cut without taking a step:
+            // one zero-length record with step count 0; its energy must still
+            // be deposited)
+            bool killed_at_init = t.steps.size() == 1 && first.step_count == 0
+                                  && first.length == 0 && first.pre.volume < 0;
+            if (first.step_count != 1 && !killed_at_init)
             {
                 std::ostringstream m;
                 m << "event " << ev.event << " track " << tk.first
@@ -131,7 +137,11 @@ inline std::string check_ledger(World const& w,
             e_dep += own_dep;
             // end of track
             long double end = 0;
-            if (last.post.volume < 0)
+            // escaping = leaving the world with kinetic energy; a track with
+            // no valid volume and NO kinetic energy was killed (errored: its
+            // energy, and 2mc^2 for a positron, is deposited by the tracking
+            // cut), it does not carry anything away
+            if (last.post.volume < 0 && last.post.energy > 0)
             {
                 end = estar(w, t.particle, last.post.energy);
                 e_out += end;
@@ -155,7 +165,7 @@ inline std::string check_ledger(World const& w,
             StepRec const& first = *t.steps.front();
             StepRec const& last = *t.steps.back();
             long double birth = estar(w, t.particle, first.pre.energy);
-            long double end = last.post.volume < 0
+            long double end = (last.post.volume < 0 && last.post.energy > 0)
                                   ? estar(w, t.particle, last.post.energy)
                                   : 0;
             long double own_dep = 0;
